@@ -371,4 +371,42 @@ def main(tier, seed, replay=None):
     rep.sigs = allsigs
     rep.extra["classes"] = classes
     rep.extra["exhaustive"] = False
+    if tier == "thorough":
+        memcheck_shard(rep, seed)
     return rep.finish()
+
+
+def memcheck_shard(rep, seed):
+    """valgrind memcheck around the proxy itself (fault-free and with an internal git call failing): an error report is a violation."""
+    from ..world import BIN, run
+    w = World(name="C07-vg", mode="wrapper", shim=True)
+    w.panic_is_error = False
+    errs = n = 0
+    try:
+        w.write_bytes("a.txt", b"one\ntwo\nthree\n")
+        w.git("add", "-A"); w.git("commit", "-q", "-m", "init")
+        script = [(["status", "-s"], None), (["commit", "-q", "-m", "c1"], None), (["commit", "-q", "--amend", "-m", "c1b"], None),
+                  (["commit", "-q", "-m", "c2"], {"GITSHIM_FAIL_AT": "5", "GITSHIM_MODE": "fail"}),
+                  (["commit", "-q", "-m", "c3"], {"GIT_AI_VERIF_FAIL_IO_AT": "1"}),
+                  (["stash", "push"], None), (["stash", "pop"], None), (["reset", "--mixed", "HEAD~1"], None),
+                  (["rebase", "HEAD~1"], {"GITSHIM_FAIL_AT": "9", "GITSHIM_MODE": "fail-after"}), (["log", "--oneline", "-3"], None)]
+        for i, (argv, fault) in enumerate(script):
+            if argv[0] in ("commit", "stash") and argv[-1] != "pop":
+                w.human_ckpt(["a.txt"])
+                w.write_bytes("a.txt", (w.read_bytes("a.txt") or b"") + b"ai line %d\n" % i)
+                w.ai_ckpt("S1", ["a.txt"])
+                if argv[0] == "commit":
+                    w.git("add", "-A")
+            w.tick()
+            e = w.env(dict(fault or {}, GIT_AI="git"))
+            pr = run(["valgrind", "-q", "--error-exitcode=97", "--leak-check=no", "--trace-children=no", BIN] + argv, w.repo, e, timeout=900)
+            n += 1
+            rep.counters["memcheck_invocations"] += 1
+            if pr.rc == 97 or b"Invalid read" in pr.err or b"Invalid write" in pr.err or b"uninitialised" in pr.err:
+                errs += 1
+                rep.direct_violation("C07/memcheck-error", dict(argv=argv, fault=fault, stderr=pr.stderr[-800:]))
+        rep.extra["memcheck"] = dict(invocations=n, error_contexts=errs)
+    except Exception as ex:
+        rep.inconclusive.append(dict(case="memcheck shard", why=repr(ex)[:300]))
+    finally:
+        w.destroy()
